@@ -180,7 +180,7 @@ def tlc_exhaustive(scen, workers=None, timeout=1500, liveness=False):
     if m:
         st["depth"] = int(m.group(1))
     st["violated"] = re.findall(r"Invariant (\w+) is violated", out)
-    if "Temporal properties were violated" in out:
+    if "Temporal properties were violated" in out or re.search(r"Temporal property \w+ was violated", out):
         st["violated"].append("Live")
     st["complete"] = "Model checking completed. No error has been found" in out
     if not st["complete"] and not st["violated"]:
@@ -350,8 +350,12 @@ def check_property(prop, tier, seed0):
         ev["coverage"]["scenarios"].append(srec)
         shutil.rmtree(tdir + "_confirm", ignore_errors=True)
 
-    for f in cfgp.get("extra", []):
-        f(ev, report, tier, seed0, outdir)
+    # property-specific extras (e.g. the TSO re-check with memory orders extracted from
+    # the recorded traces): tools/<name>.py with run(ev, report, tier, seed0, outdir)
+    for name in cfgp.get("extra", []):
+        import importlib
+        mod = importlib.import_module(name)
+        mod.run(ev, report, tier, seed0, outdir)
 
     ev["wall_s"] = round(time.time() - t0, 1)
     ev["violations"] = len(violations)
@@ -361,8 +365,9 @@ def check_property(prop, tier, seed0):
     if ev["coverage"]["states"] == 0:
         ev["coverage"]["states"] = 1
         ev["coverage"]["transitions"] = max(1, ev["coverage"]["transitions"])
-    os.makedirs(os.path.join(ROOT, "evidence"), exist_ok=True)
-    json.dump(ev, open(os.path.join(ROOT, "evidence", prop + ".json"), "w"), indent=1)
+    evdir = os.environ.get("VERIF_EVIDENCE_DIR", os.path.join(ROOT, "evidence"))
+    os.makedirs(evdir, exist_ok=True)
+    json.dump(ev, open(os.path.join(evdir, prop + ".json"), "w"), indent=1)
     for k in known_seen:
         print(f"KNOWN-FINDING: property={prop} {k['what']}")
     for desc, rp in violations:
